@@ -147,7 +147,25 @@ def run(F, R, tier):
         return any(x.kind == "src" and x.what.endswith("get_remote_checksum") for x in S.origins(n["r"]))
 
     assigns = [n for n in lp["_nodes"] if is_lock_assign(n)]
-    if R.ob("C05-b", "lockfile lookup assignment exists in load_pending_module", len(assigns) >= 1, "no assignment `<checksum local> = ..get_remote_checksum(..)`", lp["file"]):
+    # equivalent spelling: `let checksum = checksum.or_else(|| locker.get_remote_checksum(..))`
+    alt = [n for n in lp["_nodes"] if n.get("k") == "LetStmt" and "init" in n and peel(n["init"]).get("k") == "MethodCall" and peel(n["init"])["name"] in ("or_else", "or")
+           and peel(peel(n["init"])["recv"]).get("res") == "local" and any(callee_matches(x, ["Locker::get_remote_checksum"]) for a_ in peel(n["init"])["args"] for x in walk(a_))
+           and not any(a.get("k") == "Closure" for a in k_ancestors(n))]
+    if not assigns and len(alt) == 1:
+        lid_ = (pat_bindings(alt[0]["pat"]) or [{}])[0].get("lid")
+        futs = [n for n in lp["_nodes"] if n.get("k") == "Closure" and n.get("ck", "").startswith("coroutine") and any(u.get("lid") == lid_ for u in walk(n) if u.get("k") == "Path" and u.get("res") == "local")]
+        R.ob("C05-b", "a load future capturing the checksum exists", len(futs) >= 1, "no async block captures the checksum local", lp["file"])
+        for fu in futs:
+            R.ob("C05-b", "lockfile lookup dominates the load future (on the no-checksum path)", may_reach(F, alt[0], fu) and not any(a.get("k") in ("If", "Match") and is_within(a, lp["body"]["value"]) and not is_within(fu, a) for a in k_ancestors(alt[0])),
+                 "the `or_else` lockfile lookup does not dominate the load future", where(fu))
+        for x in walk(alt[0]["init"]):
+            if callee_matches(x, ["Locker::get_remote_checksum"]):
+                key = peel_value(x["args"][0])
+                ins = [m for m in lp["_nodes"] if m.get("k") == "MethodCall" and m.get("fn") == "std::collections::BTreeMap::insert" and field_of(m["recv"]) == "module_slots"]
+                same = any(peel_value(m["args"][0]).get("lid") == key.get("lid") for m in ins)
+                R.ob("C05-b", "lockfile lookup keyed by the specifier whose slot is being loaded", same and key.get("res") == "local",
+                     "get_remote_checksum is keyed by `%s`, not by the specifier inserted into module_slots" % expr_text(key), where(x))
+    elif R.ob("C05-b", "lockfile lookup assignment exists in load_pending_module", len(assigns) >= 1, "no assignment `<checksum local> = ..get_remote_checksum(..)`", lp["file"]):
         lid = peel(assigns[0]["l"])["lid"]
 
         def hook(c):
@@ -193,6 +211,9 @@ def run(F, R, tier):
     if R.ob("C05-b", "package lookup for plain https URLs found", len(nv) == 1, "load_pending_module no longer maps the requested URL to a registry package", lp_["file"]):
         conds = [x for x in guards_at(F, nv[0]) if x.kind == "cond" and not x.derived]
         ok = len(conds) == 1 and conds[0].pol and conds[0].node.get("fn") == "std::option::Option::is_none" and tyc(F, conds[0].node["recv"], "graph::JsrPackageVersionInfoExt")
+        pats = [x for x in guards_at(F, nv[0]) if x.kind == "pat"]
+        if not conds and pats and all(tyc(F, x.scrut, "graph::JsrPackageVersionInfoExt") for x in pats):
+            ok = all((x.pol and pat_text(x.pat).startswith("std::option::Option::None")) or (not x.pol and pat_text(x.pat).startswith("std::option::Option::Some(")) for x in pats)
         R.ob("C05-b", "every load of a registry https URL (asset or module) gets its manifest checksum derived", ok,
              "the package lookup is additionally guarded by %s: for those loads try_load never derives the manifest checksum and the loader is called without it" % [x.text()[:40] for x in conds], where(nv[0]))
 
